@@ -37,6 +37,9 @@ PYTYPE = {"none": type(None), "bool": bool, "int": int, "float": float, "str": s
 def _case(draw):
     depth = draw(st.sampled_from([0, 1, 1, 2, 2, 3]))
     spec = draw(specs.spec_strategy(depth=depth, sat=True))
+    share = draw(st.integers(0, 3)) == 0
+    if share:
+        spec = specs.with_repeats(draw, spec)
     mode = draw(st.sampled_from(["near-multi", "near-multi", "near-multi", "multi", "multi", "near",
                                  "unrelated"]))
     try:
@@ -52,7 +55,7 @@ def _case(draw):
             v = draw(st.one_of(values.junk, values.zoo))
     except values.Unsat:
         v = draw(values.junk)
-    return {"spec": spec, "value": v}
+    return {"spec": spec, "value": v, "share": share}
 
 
 def strategy(tier):
@@ -372,7 +375,7 @@ def check(case, ctx):
     from d42.substitution import SubstitutorValidator
     spec = case["spec"]
     try:
-        S = specs.build(spec)
+        S = specs.build(spec, share={} if case.get("share") else None)
     except DeclarationError as e:
         ctx.skip_undeclarable(None, e)
         return
